@@ -542,4 +542,18 @@ example : hk_sf_corr (3 / 4) < hk_sf_corr (1 / 2) :=
   sf_corr_strictAntiOn (by norm_num [Set.mem_Ioo]) (by norm_num [Set.mem_Ioo]) (by norm_num)
 example : hk_volume_adsorbed 2 28 (4 / 5) = 7 / 100 := by unfold hk_volume_adsorbed; norm_num
 
+
+/-! ### model dispatch of the entry point (decision logic, stated outright) -/
+
+/-- the Cheng-Yang correction is applied exactly for the two `-CY` model names, the Rege-Yang potentials exactly for the two `RY` names -/
+theorem dispatch_spec (m : String) (ry cy : Bool) (h : PgVerif.Model.Micro.dispatch m = some (ry, cy)) :
+    (cy = true ↔ (m = "HK-CY" ∨ m = "RY-CY")) ∧ (ry = true ↔ (m = "RY" ∨ m = "RY-CY")) := by
+  unfold PgVerif.Model.Micro.dispatch at h
+  split_ifs at h with h1 h2 h3 h4 <;> simp_all
+
+theorem dispatch_none_iff (m : String) :
+    PgVerif.Model.Micro.dispatch m = none ↔ (m ≠ "HK" ∧ m ≠ "HK-CY" ∧ m ≠ "RY" ∧ m ≠ "RY-CY") := by
+  unfold PgVerif.Model.Micro.dispatch
+  split_ifs with h1 h2 h3 h4 <;> simp_all
+
 end PgVerif.Props.C17
